@@ -477,6 +477,36 @@ def c03_c(run, fx):
         run.anchor_missing(rule, "statics table")
 
 
+def c03_rebase(run, fx):
+    rule = "C03-a/B"
+    run.rule(rule, "no ReadScope is re-based: ReadScope::new is never applied to (a sub-slice of) another scope's data(), neither directly nor as "
+                   "the function handed to Option::map / and_then. Sub-scopes come from offset / offset_length, which keep the base that the "
+                   "base-keyed caches (ReadCache, FeatureTableSubstitution::cache_key) use as the identity of a sub-table")
+    n = 0
+    for b in fx.bodies:
+        if b.exp:
+            continue
+        prov = None
+        for bi, t in b.calls():
+            p = t["callee"].get("path") or ""
+            hit = None
+            if callee_is(t, "binary::read::ReadScope::<'a>::new"):
+                prov = prov or sym.Prov(b)
+                hit = prov.op(t["args"][0])
+            elif p.endswith(("Option::<T>::map", "Option::<T>::and_then", "Result::<T, E>::map")) and len(t["args"]) == 2:
+                prov = prov or sym.Prov(b)
+                f = sym.strip(prov.op(t["args"][1]))
+                if f[0] == "fn" and "ReadScope" in f[1] and f[1].endswith("::new"):
+                    hit = prov.op(t["args"][0])
+            if hit is None:
+                continue
+            n += 1
+            if any(x[0] == "call" and (x[4] or x[1] or "").endswith(("ReadScope::<'a>::data", "ReadCtxt::<'a>::scope")) for x in sym.walk(hit)):
+                run.fail(rule, "rebase:%s" % b.root, "%s builds a ReadScope from another scope's data(): the new scope's base is 0, so caches keyed by the "
+                         "scope base confuse this sub-table with others (results depend on which was read first)" % b.path, b.loc(t))
+    run.ok(rule, "%d ReadScope constructions examined" % n)
+
+
 def check(run, fx, tier, floors=True):
     c03_entry(run, fx, floors)
     c03_readcache(run, fx, floors)
@@ -485,6 +515,7 @@ def check(run, fx, tier, floors=True):
     c03_lazy(run, fx, floors)
     c03_b(run, fx, floors)
     c03_c(run, fx)
+    c03_rebase(run, fx)
     if floors or fx.body("layout::new_layout_cache") is not None:
         # the lookup caches are index memos: the remembered index must be the position of the list it stands for
         import rules_C02
